@@ -1381,19 +1381,19 @@ class noci(wave_function):
             (sd_0_up[:, : self.nelec[0]])
             .dot(
                 jnp.linalg.inv(
-                    sd_1_up[:, : self.nelec[0]].T.dot(sd_0_up[:, : self.nelec[0]])
+                    sd_1_up[:, : self.nelec[0]].T.conj().dot(sd_0_up[:, : self.nelec[0]])
                 )
             )
-            .dot(sd_1_up[:, : self.nelec[0]].T)
+            .dot(sd_1_up[:, : self.nelec[0]].T.conj())
         )
         dm_dn = (
             (sd_0_dn[:, : self.nelec[1]])
             .dot(
                 jnp.linalg.inv(
-                    sd_1_dn[:, : self.nelec[1]].T.dot(sd_0_dn[:, : self.nelec[1]])
+                    sd_1_dn[:, : self.nelec[1]].T.conj().dot(sd_0_dn[:, : self.nelec[1]])
                 )
             )
-            .dot(sd_1_dn[:, : self.nelec[1]].T)
+            .dot(sd_1_dn[:, : self.nelec[1]].T.conj())
         )
         return [dm_up, dm_dn]
 
@@ -1404,7 +1404,7 @@ class noci(wave_function):
         overlaps = vmap(
             vmap(self._calc_overlap_single_det, in_axes=(None, None, 0, 0)),
             in_axes=(0, 0, None, None),
-        )(dets[0], dets[1], dets[0], dets[1])
+        )(dets[0], dets[1], dets[0], dets[1]).T
         overlap = jnp.sum(jnp.outer(ci_coeffs, ci_coeffs) * overlaps)
         up_rdm1s, dn_rdm1s = vmap(
             vmap(self._get_trans_rdm1_single_det, in_axes=(0, 0, None, None)),
